@@ -17,9 +17,10 @@
    their conclusions: the results are functions of the data alone. *)
 From Coq Require Import List NArith Arith Lia.
 From NV Require Import Io.Source Io.ReadExact Io.ReadExactProofs Io.BufReader Io.BufReaderProofs
+  Io.Prog Io.ProgProofs Io.IndexProg Io.IndexProgProofs Io.ProgCram Io.ProgRun Io.ProgRunProofs
   Io.FastaScan Io.FastaScanProofs Io.FastaIndex Io.FastaIndexProofs Io.FastqRead Io.FastqReadProofs Io.HeaderRead Io.HeaderReadProofs Io.BgzfRead Io.BgzfReadProofs Io.BedRead Io.BedReadProofs Io.BedBridge Io.TabRead Io.TabReadProofs Io.Run Io.RunProofs.
 From NV Require Fasta.Layout Fasta.Indexer Fasta.WholeFile Fasta.Fastq Bgzf.Frame Bgzf.Reader Bgzf.ReaderOps
-  Text.TextBase Text.BedRec.
+  Text.TextBase Text.BedRec Index.Layout Index.TextIndex Trunc.Stream Trunc.Cram CramIdx.AsyncQuery Bgzf.Crc32.
 Import ListNotations.
 
 (* every delivery script (any split sizes, any placement of Interrupted) is a simulating reader;
@@ -528,6 +529,147 @@ Theorem c12_read_lines_any_delivery :
 Proof. exact run_read_lines_spec. Qed.
 Print Assumptions c12_read_lines_any_delivery.
 
+(* ---- read programs (NV.Io.Prog): every reader that only uses the read_exact loop (Fill: read_exact,
+   read_exact_or_eof, a read_exact whose UnexpectedEof is caught), `take(n).read_to_end` (Take, with
+   whatever sizes read_to_end asks for) and BufRead::read_until (Until) is delivery independent.
+   Over a plain Read (any simulating reader; programs without read_until): the result is the
+   result on the data and the reader is left exactly at the bytes the program leaves -- also when
+   it ends with an error *)
+Theorem c12_read_program_delivery_indep :
+  forall (S : Type) (rd : reader S) (Rep : S -> list N -> nat -> Prop), simulates rd Rep ->
+  forall (req : nat -> nat) (fuelf : S -> nat -> nat),
+    (forall s d m n, Rep s d m -> m + n < fuelf s n) ->
+  forall (A : Type) (p : prog A), until_free p ->
+  forall s d m, Rep s d m ->
+    exists s' m', run_raw rd req fuelf p s = (fst (run_pure p d), s')
+                  /\ Rep s' (snd (run_pure p d)) m' /\ m' <= m.
+Proof. exact run_raw_spec. Qed.
+Print Assumptions c12_read_program_delivery_indep.
+
+(* over a std BufReader of any capacity >= 1 (any program, read_until included) *)
+Theorem c12_read_program_buffered_delivery_indep :
+  forall (S : Type) (rd : reader S) (Rep : S -> list N -> nat -> Prop), simulates rd Rep ->
+  forall cap, 1 <= cap ->
+  forall (req : nat -> nat) (fuelf : bstate S -> nat -> nat) (fuelu : bstate S -> nat),
+    (forall st d m n, rep_buf Rep st d m -> m + n < fuelf st n) ->
+    (forall st d m, rep_buf Rep st d m -> m + length d + 1 < fuelu st) ->
+  forall (A : Type) (p : prog A) st d m, rep_buf Rep st d m ->
+    exists st' m', run_buf rd cap req fuelf fuelu p st = (fst (run_pure p d), st')
+                   /\ rep_buf Rep st' (snd (run_pure p d)) m' /\ m' <= m.
+Proof. exact run_buf_spec. Qed.
+Print Assumptions c12_read_program_buffered_delivery_indep.
+
+(* on the scripted source, raw (cap = 0) or buffered: any script, any capacity, any read_to_end
+   request size: (result, bytes left) are those of the program on the data *)
+Theorem c12_read_program_any_delivery :
+  forall (A : Type) (p : prog A) data sc cap chunk, (cap = 0 -> until_free p) ->
+    run_prog cap chunk p (mkSource data sc)
+    = (cres_of (fst (run_pure p data)), length (snd (run_pure p data))).
+Proof. exact run_prog_spec. Qed.
+Print Assumptions c12_read_program_any_delivery.
+
+(* two deliveries of the same data through two different readers *)
+Theorem c12_read_program_two_deliveries :
+  forall (S1 S2 : Type) (rd1 : reader S1) (rd2 : reader S2) Rep1 Rep2,
+    simulates rd1 Rep1 -> simulates rd2 Rep2 ->
+  forall req1 req2 fuelf1 fuelf2,
+    (forall s d m n, Rep1 s d m -> m + n < fuelf1 s n) ->
+    (forall s d m n, Rep2 s d m -> m + n < fuelf2 s n) ->
+  forall (A : Type) (p : prog A), until_free p ->
+  forall s1 s2 d m1 m2, Rep1 s1 d m1 -> Rep2 s2 d m2 ->
+    fst (run_raw rd1 req1 fuelf1 p s1) = fst (run_raw rd2 req2 fuelf2 p s2).
+Proof. exact run_raw_two_deliveries. Qed.
+Print Assumptions c12_read_program_two_deliveries.
+
+(* count-driven loops are built on the binary representation of the count (so that a count of
+   2^64 read from the input costs nothing until the reads fail); they run like the unary loops *)
+Theorem c12_count_loop_is_unary_loop :
+  forall (A : Type) (p : prog A) n d, run_pure (p_rep n p) d = run_pure (p_repeat (N.to_nat n) p) d.
+Proof. exact p_rep_pure. Qed.
+Print Assumptions c12_count_loop_is_unary_loop.
+
+(* ---- instances.  gzi (read_index): under any delivery = C17's whole-buffer read_gzi *)
+Theorem c12_gzi_reader_any_delivery :
+  forall data sc cap,
+    run_gzi cap (mkSource data sc) = (cres_of (fst (run_pure p_gzi data)), length (snd (run_pure p_gzi data)))
+    /\ opt_of (run_pure p_gzi data) = Layout.read_gzi data.
+Proof. intros data sc cap. split; [apply run_gzi_spec|apply p_gzi_is_read_gzi]. Qed.
+Print Assumptions c12_gzi_reader_any_delivery.
+
+(* BAI (read_index: magic, references with bins / metadata pseudo-bin / intervals, optional
+   trailing count): under any delivery = C17's whole-buffer read_bai *)
+Theorem c12_bai_reader_any_delivery :
+  forall data sc cap,
+    run_bai cap (mkSource data sc) = (cres_of (fst (run_pure p_bai data)), length (snd (run_pure p_bai data)))
+    /\ opt_of (run_pure p_bai data) = Layout.read_bai data.
+Proof. intros data sc cap. split; [apply run_bai_spec|apply p_bai_is_read_bai]. Qed.
+Print Assumptions c12_bai_reader_any_delivery.
+
+(* fai (read_line loop + UTF-8 validation of each line + parse_record) behind any BufReader *)
+Theorem c12_fai_reader_any_delivery :
+  forall data sc cap, 1 <= cap ->
+    let p := p_fai (Datatypes.S (length data)) in
+    run_fai cap (mkSource data sc) = (cres_of (fst (run_pure p data)), length (snd (run_pure p data))).
+Proof. exact run_fai_spec. Qed.
+Print Assumptions c12_fai_reader_any_delivery.
+
+(* BCF record reader (read_exact_or_eof(4), read_u32_le, take(l_shared).read_to_end, the site
+   indexer -- a parameter --, take(l_indiv).read_to_end): one record under any delivery is C13's
+   framing model on the data; the loop on the scripted source *)
+Theorem c12_bcf_record_chunk_indep :
+  forall (site_ok : list N -> option Stream.ekind)
+         (S : Type) (rd : reader S) (Rep : S -> list N -> nat -> Prop), simulates rd Rep ->
+  forall (req : nat -> nat) (fuelf : S -> nat -> nat),
+    (forall s d m n, Rep s d m -> m + n < fuelf s n) ->
+  forall s d m, Rep s d m ->
+    exists s' m', run_raw rd req fuelf (p_bcf_record site_ok) s = (fst (run_pure (p_bcf_record site_ok) d), s')
+                  /\ Rep s' (snd (run_pure (p_bcf_record site_ok) d)) m' /\ m' <= m
+                  /\ step_of (run_pure (p_bcf_record site_ok) d) = Stream.bcf_read_record site_ok Stream.Eof d.
+Proof.
+  intros site_ok S rd Rep Hsim req fuelf Hfuel s d m HR.
+  destruct (run_raw_spec S rd Rep Hsim req fuelf Hfuel _ (p_bcf_record site_ok)
+              (until_free_p_bcf_record site_ok) s d m HR) as [s' [m' [E [HR' Hm']]]].
+  exists s', m'. repeat split; auto. apply p_bcf_record_is_c13.
+Qed.
+Print Assumptions c12_bcf_record_chunk_indep.
+
+Theorem c12_bcf_records_any_delivery :
+  forall tab data sc cap chunk,
+    let p := p_bcf_records (site_table tab) (Datatypes.S (length data)) in
+    run_bcf tab cap chunk (mkSource data sc) = (cres_of (fst (run_pure p data)), length (snd (run_pure p data))).
+Proof. exact run_bcf_spec. Qed.
+Print Assumptions c12_bcf_records_any_delivery.
+
+(* CRAM container reader: C19's read program of the sync reader (header fields with ITF8 / LTF8,
+   CRC32, EOF container, take(len).read_to_end body) is a read program; one container under any
+   delivery is C19's run_pure on the data; the read_container loop on the scripted source *)
+Theorem c12_cram_container_chunk_indep :
+  forall (crc : list N -> N)
+         (S : Type) (rd : reader S) (Rep : S -> list N -> nat -> Prop), simulates rd Rep ->
+  forall (req : nat -> nat) (fuelf : S -> nat -> nat),
+    (forall s d m n, Rep s d m -> m + n < fuelf s n) ->
+  forall s d m, Rep s d m ->
+    exists s' m', run_raw rd req fuelf (p_cram_container crc) s = (fst (run_pure (p_cram_container crc) d), s')
+                  /\ Rep s' (snd (run_pure (p_cram_container crc) d)) m' /\ m' <= m
+                  /\ match AsyncQuery.run_pure (AsyncQuery.p_read_container crc false) d with
+                     | Cram.POk a r => run_pure (p_cram_container crc) d = (RVal a, r)
+                     | Cram.PErr e => fst (run_pure (p_cram_container crc) d) = RErr e
+                     end.
+Proof.
+  intros crc S rd Rep Hsim req fuelf Hfuel s d m HR.
+  destruct (run_raw_spec S rd Rep Hsim req fuelf Hfuel _ (p_cram_container crc)
+              (until_free_of_c19 _ _) s d m HR) as [s' [m' [E [HR' Hm']]]].
+  exists s', m'. repeat split; auto. apply of_c19_pure.
+Qed.
+Print Assumptions c12_cram_container_chunk_indep.
+
+Theorem c12_cram_containers_any_delivery :
+  forall data sc cap chunk,
+    let p := p_cram_containers Crc32.crc32 (Datatypes.S (length data)) in
+    run_cram cap chunk (mkSource data sc) = (cres_of (fst (run_pure p data)), length (snd (run_pure p data))).
+Proof. exact run_cram_spec. Qed.
+Print Assumptions c12_cram_containers_any_delivery.
+
 (* ---- non-vacuity *)
 (* a script with 1-byte deliveries and an Interrupted in the middle: read_exact 4 of "abcdef" *)
 Example c12_example_read_exact :
@@ -622,4 +764,18 @@ Example c12_example_vcf_repaired :
     = TextBase.Ok 17 /\
   fst (fst (fst (d_vcf_read_record_fx src_read 2 true 200 ([], mkSource [115; 9; 233; 9; 65; 10]%N []))))
     = TextBase.Err TextBase.InvalidData.
+Proof. vm_compute. repeat split. Qed.
+
+(* read programs: a gzi index with one entry, 1-byte deliveries with Interrupted, raw and buffered;
+   a BAI file with no reference and a trailing count, cut inside the count (the partial count is
+   dropped, as read_exact's UnexpectedEof is mapped to None) *)
+Example c12_example_read_programs :
+  let g := [1; 0; 0; 0; 0; 0; 0; 0; 5; 0; 0; 0; 0; 0; 0; 0; 9; 0; 0; 0; 0; 0; 0; 0]%N in
+  run_gzi 0 (mkSource g [Deliver 1; Interrupted; Deliver 3]) = (COk [(5, 9)]%N, 0) /\
+  run_gzi 3 (mkSource g [Interrupted; Deliver 2]) = (COk [(5, 9)]%N, 0) /\
+  fst (run_gzi 0 (mkSource (g ++ [7]%N) [Deliver 2])) = CErr 1 /\
+  fst (run_gzi 0 (mkSource (firstn 20 g) [Deliver 2])) = CErr 2 /\
+  let b := [66; 65; 73; 1; 0; 0; 0; 0; 4; 0; 0; 0; 0; 0; 0; 0]%N in
+  fst (run_bai 0 (mkSource b [Deliver 1; Interrupted])) = COk (Layout.mkbai [] (Some 4%N)) /\
+  run_bai 2 (mkSource (firstn 13 b) [Deliver 1]) = (COk (Layout.mkbai [] None), 0).
 Proof. vm_compute. repeat split. Qed.
